@@ -121,3 +121,85 @@ def _inv(c, L, i):
                   cnt.upto(j0 + 1).r == cnt.upto(j0).r + 1, cnt.upto(j0 + 1).r <= cnt.upto(i).r))),
         "config-not-modified": c.ctx.rd(c.new_heap, "$mhas")[L.config_data.id] == c.ctx.rd(c.old_heap, "$mhas")[L.config_data.id],
     }
+
+
+# ---- the constraints decorator: whatever iterable the names come in, the plugin carries exactly these names --------------------------
+from pyvc.values import VSet, VTuple, VList, SV
+from pyvc.builtins_ import ConcreteIter
+from pyvc.engine import fresh_val
+
+PLG = "cobald.daemon.plugins"
+
+
+def _mk_constraints(kind, nb, na):
+    """kind: how the names are handed in - 'tuple' (re-iterable) or 'iterator' (a generator / iter() / map(): one pass only)"""
+    bnames, anames = ["b%d" % k for k in range(nb)], ["a%d" % k for k in range(na)]
+
+    class shape:
+        __doc__ = ("@constraints(before=<%s of %d names>, after=<%s of %d names>): the decorated plugin carries exactly these names as its before / after "
+                   "requirements (and the `required` flag), is returned unchanged otherwise, and nothing else happens" % (kind, nb, kind, na))
+        body_key = PLG + ":constraints.section_wrapper"
+        params = {"plugin": lambda ctx: __import__("contracts.c04_partial", fromlist=["x"])._sym_obj(ctx, "plugin", PluginFn)}
+        result = TAny()
+
+        def closure_env(ctx, I, bound):
+            mk = (lambda xs: VTuple(list(xs))) if kind == "tuple" else (lambda xs: ConcreteIter(list(xs), oneshot=True))
+            env = {"before": mk(bnames), "after": mk(anames), "required": ctx.typed(fresh_val("required"), TBool())}
+            ctx.ghost["closure"] = env
+            return [env]
+
+        def writes(c, plugin):
+            return [(plugin, "__requirements__")]
+
+        def ensures(c, plugin, result):
+            ctx = c.ctx
+            req = plugin.field("__requirements__")
+            rv = c.view_term(req.t, Req, c.new_heap)
+            b = ctx.from_val(SV(rv.before.t, TAny()))
+            a = ctx.from_val(SV(rv.after.t, TAny()))
+            return {"before-is-exactly-the-names-given": isinstance(b, VSet) and sorted(b.items) == sorted(bnames),
+                    "after-is-exactly-the-names-given": isinstance(a, VSet) and sorted(a.items) == sorted(anames),
+                    "required-flag-as-given": rv.required.t == ctx.ghost["closure"]["required"].t,
+                    "the-plugin-itself-is-returned": result.t == plugin.t}
+    return shape
+
+
+PluginFn = TAbs("plugin-callable", fields={"__requirements__": TAny()}, events=False)
+for _kind in ("tuple", "iterator"):
+    for _nb, _na in ((0, 0), (2, 0), (1, 2)):
+        contract(PLG + ":constraints.section_wrapper#%s(%d,%d)" % (_kind, _nb, _na), props=["C14"])(_mk_constraints(_kind, _nb, _na))
+
+
+def _mk_constraints_outer(kind, nb, na):
+    bnames, anames = ["b%d" % k for k in range(nb)], ["a%d" % k for k in range(na)]
+    mk = (lambda xs: VTuple(list(xs))) if kind == "tuple" else (lambda xs: ConcreteIter(list(xs), oneshot=True))
+
+    class shape:
+        __doc__ = ("constraints(before=<%s>, after=<%s>, required=...) only builds the decorator: it returns section_wrapper closed over the arguments AS GIVEN - "
+                   "in particular an iterator handed in is not consumed before the decorator is applied" % (kind, kind))
+        body_key = PLG + ":constraints"
+        params = {"before": lambda ctx: mk(bnames), "after": lambda ctx: mk(anames), "required": TBool()}
+        result = TAny()
+
+        def ensures(c, before, after, required, result):
+            from pyvc.values import Closure
+
+            res = c.result
+            res = c.ctx.from_val(res) if isinstance(res, SV) else res
+            if not isinstance(res, Closure) or res.fi.key != PLG + ":constraints.section_wrapper":
+                return {"returns-the-decorator": False}
+            env = {}
+            for fr in res.env:
+                env.update(fr)
+
+            def untouched(v, names):
+                v = c.ctx.from_val(v) if isinstance(v, SV) else v
+                return isinstance(v, (VTuple, ConcreteIter)) and list(v.items) == list(names)
+            return {"returns-the-decorator": True,
+                    "closed-over-the-names-as-given-nothing-consumed": untouched(env.get("before"), bnames) and untouched(env.get("after"), anames),
+                    "closed-over-the-required-flag": (c.ctx.to_val(env.get("required")).t == required.t) if env.get("required") is not None else False}
+    return shape
+
+
+for _kind in ("tuple", "iterator"):
+    contract(PLG + ":constraints#%s" % _kind, props=["C14"])(_mk_constraints_outer(_kind, 2, 1))
